@@ -395,6 +395,9 @@ func (c *child) runSegment(s segment, lo, hi int) {
 			switch {
 			case local < 256*len(keyLens):
 				key, val = matrixKey(local, rng), contents(rng)
+			case s.Net == "history" && local%5 == 1:
+				key, val = craftedHeaderItem(rng)
+				c.count("validate_crafted_consistent_header_items", 1)
 			case len(g.seeds) > 0 && local%2 == 0:
 				sd := g.seeds[rng.Intn(len(g.seeds))]
 				key, val = sd.key, sd.val
